@@ -7,7 +7,10 @@ import (
 	"bytes"
 	"fmt"
 	"io"
+	"os"
 	"reflect"
+	"sync"
+	"sync/atomic"
 	"testing"
 
 	"github.com/Tnze/go-mc/nbt"
@@ -526,4 +529,106 @@ func FuzzC03(f *testing.F) {
 			t.Fatalf("VIOLATION-DETAIL C03 %s", v)
 		}
 	})
+}
+
+// TestC03Concurrent: independent Decoders on independent inputs, run from several goroutines at once, decoding
+// into the SAME struct types with key spellings nobody has used before (the decoder matches names case-insensitively)
+// and malformed documents mixed in. Totality is a per-call promise; a decoder that memoises something per type
+// must not turn two unrelated calls into a crash (Go aborts the process on an unsynchronised map access, which
+// no recover can catch: the driver reports a crashed shard as a violation).
+type c03Shared struct {
+	Alpha int32  `nbt:"alphabetagammadeltaeps"`
+	Beta  string `nbt:"betagammadeltaepsilonz"`
+	Inner struct {
+		Gamma int64 `nbt:"gammadeltaepsilonzetae"`
+	} `nbt:"innerinnerinnerinnerinn"`
+}
+
+type C03Concurrent struct {
+	Iters int    `json:"iters"`
+	Base  uint64 `json:"base"`
+}
+
+func init() { pbt.RegisterFunc("C03Concurrent", c03ConcurrentRun) }
+
+func TestC03Concurrent(t *testing.T) {
+	c := C03Concurrent{Iters: pbt.Pick(3000, 60000), Base: uint64(pbt.Seed)*1000003 + uint64(pbt.Shard)*7919}
+	saved := pbt.SaveReplay("C03Concurrent", c, nil) // a crash of the process leaves the case behind
+	v := c03ConcurrentRun(c)
+	if saved != "" && v == nil {
+		_ = os.Remove(saved)
+	}
+	pbt.Ev.Bulk(int64(8*c.Iters), int64(8*c.Iters))
+	pbt.Ev.LabelN("concurrent_decodes", int64(8*c.Iters))
+	if v != nil {
+		pbt.Fail(t, "C03Concurrent", c, v)
+	}
+}
+
+func c03ConcurrentRun(c C03Concurrent) *pbt.Violation {
+	iters := c.Iters
+	var wg sync.WaitGroup
+	var bad atomic.Value
+	base := c.Base
+	spell := func(name string, bits uint64) []byte {
+		b := []byte(name)
+		for i := range b {
+			if bits>>uint(i)&1 == 1 {
+				b[i] -= 'a' - 'A'
+			}
+		}
+		return b
+	}
+	for g := 0; g < 8; g++ {
+		wg.Add(1)
+		go func(g int) {
+			defer wg.Done()
+			for it := 0; it < iters; it++ {
+				bits := (base+uint64(g*iters+it))*0x9e3779b97f4a7c15>>20 | 1
+				var doc []byte
+				doc = append(doc, 10, 0, 0)
+				k := spell("alphabetagammadeltaeps", bits)
+				doc = append(doc, 3, 0, byte(len(k)))
+				doc = append(doc, k...)
+				doc = append(doc, 0, 0, byte(g), byte(it))
+				k = spell("innerinnerinnerinnerinn", bits>>3)
+				doc = append(doc, 10, 0, byte(len(k)))
+				doc = append(doc, k...)
+				k = spell("gammadeltaepsilonzetae", bits>>7)
+				doc = append(doc, 4, 0, byte(len(k)))
+				doc = append(doc, k...)
+				doc = append(doc, 0, 0, 0, 0, 0, 0, byte(g), byte(it))
+				doc = append(doc, 0, 0)
+				if it%5 == 4 {
+					doc = doc[:len(doc)-1-it%7] // a strict prefix now and then
+				}
+				var v c03Shared
+				var err error
+				if pv, stack := pbt.Try(func() { err = nbt.Unmarshal(doc, &v) }); pv != nil {
+					bad.Store(fmt.Sprintf("goroutine %d: Unmarshal of % x panicked: %v\n%s", g, doc, pv, stack))
+					return
+				}
+				if it%5 == 4 {
+					if err == nil {
+						bad.Store(fmt.Sprintf("goroutine %d: a strict prefix was accepted: % x", g, doc))
+						return
+					}
+					continue
+				}
+				if err != nil {
+					bad.Store(fmt.Sprintf("goroutine %d: well-formed document refused: %v (% x)", g, err, doc))
+					return
+				}
+				if (v.Alpha != 0 && v.Alpha != int32(g)<<8|int32(byte(it))) || (v.Inner.Gamma != 0 && v.Inner.Gamma != int64(g)<<8|int64(byte(it))) {
+					bad.Store(fmt.Sprintf("goroutine %d iteration %d: decoded Alpha=%#x Gamma=%#x from its own document % x", g, it, v.Alpha, v.Inner.Gamma, doc))
+					return
+				}
+			}
+		}(g)
+	}
+	wg.Wait()
+	if s, ok := bad.Load().(string); ok {
+		return pbt.V("c03.concurrent", "never panics; a value or an error per call, whatever other calls are in flight", "%s", s)
+	}
+	return nil
 }
